@@ -365,3 +365,83 @@ func fieldNameOf(fa *ssa.FieldAddr) string {
 	}
 	return ""
 }
+
+// ruleSetErrorNonNil: SetError(nil) is not "no error": the dispatch loop treats the posted message
+// as the end of the client, but the sticky error stays nil, pending and later requests answer
+// success with nothing transferred.  Every caller hands SetError an error that is non-nil there.
+func ruleSetErrorNonNil(rule string) ruleFn {
+	return func(c *Ctx) {
+		c.Doc(rule, "every call of rpc.Client.SetError passes an error that is non-nil at the call: a sentinel (ErrRWTimeout / ErrPingTimeout, or a merge of them), a constructed error, or a value behind its own non-nil test; a value looked up in a table (nil for a missing row) turns a deadline that ran out into a success")
+		n := 0
+		for _, fn := range prodFns(c.P) {
+			for _, in := range AnyCallsTo(fn, fCli+"SetError") {
+				ci, ok := in.(ssa.CallInstruction)
+				if !ok || len(ci.Common().Args) < 2 {
+					continue
+				}
+				n++
+				v := ci.Common().Args[1]
+				key := fmt.Sprintf("%s | SetError is handed a non-nil error", FnName(fn))
+				if nonNilAt(v, in.Block()) || nonNilMerge(v, in.Block(), 0) {
+					c.OK(rule, key, c.P.InstrPos(in), NewRenderer(fn).V(v), false)
+				} else {
+					c.Bad(rule, key, c.P.InstrPos(in), "the error handed to SetError ("+NewRenderer(fn).V(v)+") is not known to be non-nil here", nil)
+				}
+			}
+		}
+		if n < 4 {
+			c.Undecided(rule, "vacuity-floor", "", fmt.Sprintf("only %d calls of SetError found (expected >= 4)", n))
+		}
+	}
+}
+
+// nonNilMerge: a merge all of whose arms are non-nil (sentinels, constructed errors, values
+// tested in the arm's block).
+func nonNilMerge(v ssa.Value, b *ssa.BasicBlock, d int) bool {
+	p, ok := v.(*ssa.Phi)
+	if !ok || d > 3 {
+		return false
+	}
+	for i, e := range p.Edges {
+		if i >= len(p.Block().Preds) {
+			return false
+		}
+		pb := p.Block().Preds[i]
+		if !(nonNilAt(e, pb) || nonNilMerge(e, pb, d+1)) {
+			return false
+		}
+	}
+	return len(p.Edges) > 0
+}
+
+// ruleMapSize: the block map of a replica that is opened covers the size recorded in its
+// metadata (r.info.Size after readMetadata), not the size the caller happened to pass: a volume
+// on a backing image is re-opened with the image's size, a grown one with the size before the grow.
+func ruleMapSize(rule string) ruleFn {
+	return func(c *Ctx) {
+		c.Doc(rule, "replica.construct: the block map (volume.location) is allocated from r.info.Size - the persisted size once the metadata has been read - and never from the size parameter alone; a map shorter than the persisted size makes I/O on the grown range index out of range")
+		fn := c.Anchor(rule, "replica.construct")
+		if fn == nil {
+			return
+		}
+		R := NewRenderer(fn)
+		n := 0
+		eachInstr(fn, func(in ssa.Instruction) {
+			st, ok := in.(*ssa.Store)
+			if !ok || !strings.HasSuffix(R.V(st.Addr), ".volume.location") {
+				return
+			}
+			n++
+			v := R.V(st.Val)
+			key := FnName(fn) + " | block map sized from the recorded size"
+			if strings.HasPrefix(v, "makeslice(") && strings.Contains(v, ".info.Size") && !strings.Contains(v, "$2") {
+				c.OK(rule, key, c.P.InstrPos(in), v, false)
+			} else {
+				c.Bad(rule, key, c.P.InstrPos(in), "the block map is allocated as "+v+": not from r.info.Size", nil)
+			}
+		})
+		if n == 0 {
+			c.Bad(rule, FnName(fn)+" | block map sized from the recorded size", c.P.Pos(fn.Pos()), "no allocation of volume.location found in construct", nil)
+		}
+	}
+}
